@@ -62,6 +62,10 @@ def run_case(case):
         if nl >= 2 and rnd.random() < 0.15:
             pos[1] = pos[0]                      # duplicate coordinate
         length = round((pos[-1] if pos else 0) + rnd.uniform(0.5, 5000), 1)
+        r3 = random.Random(seed * 29 + mid % 1000)
+        if pos and r3.random() < 0.15:
+            # the end marker right behind the last label, within the same base pair: the length (truncated) is then not above the last label's coordinate
+            length = round(pos[-1] + r3.choice((0.0, 0.1, 0.4, 0.7)), 1)
         maps.append((mid, length, pos))
     filt = rnd.choice(('none', 'subset', 'superset', 'disjoint', 'empty'))
     ids = {'none': None, 'empty': [], 'subset': idpool[:max(1, nm // 2)], 'superset': idpool + [777], 'disjoint': [888, 999]}[filt]
@@ -130,7 +134,7 @@ def bounded(repo, tier, seed):
             viol.setdefault(key, dict(key=key, blame=fid, input=dict(seed=case[0]), observed=dict(violated=bad, ids=info['ids'], text=info['text'][:1500]),
                                       required='C17 statement'))
     return result(sum(r[0] for r in res), sum(r[1] for r in res),
-                  "generated CMAP text: 1-6 molecules with arbitrary ids (15% beyond 32 bits, two of them equal modulo 2**32), 15% two-colour files (labels on channel 1 or 2), 0-8 labels each (molecules with only an end-marker row included), coordinates with one "
+                  "generated CMAP text: 1-6 molecules with arbitrary ids (15% beyond 32 bits, two of them equal modulo 2**32), 15% two-colour files (labels on channel 1 or 2), 0-8 labels each (molecules with only an end-marker row included; 15% with the end marker within one base pair behind the last label), coordinates with one "
                   "decimal incl. duplicates, shuffled rows, 0-3 extra columns in varying positions, id filters none/empty/subset/superset/disjoint (40% of the non-empty ones in shuffled order with repeated ids), through "
                   "readQueries/readReferences, compared with an independent parser; trim() applied to every map read; non-trivial = at least two labelled molecules expected",
                   [dict(seed=seeds[0]), dict(seed=seeds[1])], list(viol.values())[:5], exhaustive=False, bounds=f"{n} generated files")
